@@ -1248,7 +1248,8 @@ def run(ctx):
                                            + (f' unready={o2["unready"]}' if o2['unready'] else ''),
                                    'case': small, 'detail': {'clause': clause, 'original': case}})
     res.notes.append('O02 (observation): HasIO.ioDict is a class-level dictionary shared by every node of the process; the harness '
-                     'clears it before every case')
+                     'clears it before every case (not between the rounds of a restarted node: since 8136d1a a uri registered by an '
+                     'earlier node is created again on the node that does not have the communicator)')
     return res
 
 
